@@ -57,9 +57,9 @@ for kind in (1, 2, 3, 4):
         trusted=['sequential contracts of the optimistic_lock primitives (their concurrent semantics: C07)', 'one thread only: no claim about interleavings',
                  'qsbr_per_thread::on_next_epoch_deallocate is a ledger event'] + (['basic_inode_%d::init(db, inode_%d&, leaf, depth) (growth copy routine): no lock operation (IR fact olc.copy-routines.no-locks), takes the leaf; memory / statistics / retire effects not modelled, growth postconditions C10/C04-seq not claimed for this class' % (CLSN[kind + 1], n)] if kind in (3,) else []))
 # try_insert: entry + one loop iteration at a leaf / at an inner node, with the four add_or_choose_subtree instantiations replaced by the contract proved in olc.aocs.k1..k4
-for kind in (0, 1, 2):
+for kind, fp in ((0, 0), (1, 0), (2, 0), (1, 1), (2, 1)):
     stubs = dict(ADT); stubs.update(LW); stubs['AOCS*'] = r'unodb::detail::olc_impl_helpers::add_or_choose_subtree<[^(]*olc_inode_\d+<'
-    job('olc.insert.top%d' % kind, ['C14', 'C16', 'C08'], 'u_olc', 'proofs/olc/insert_top.c', defines=['KIND=%d' % kind, 'POL=OLC64'],
+    job('olc.insert.top%d%s' % (kind, 'f' if fp else ''), (['C01', 'C10', 'C16'] if fp else ['C14', 'C16', 'C08']), 'u_olc', 'proofs/olc/insert_top.c', defines=['KIND=%d' % kind, 'POL=OLC64'] + (['FUNCPOST=1'] if fp else []),
         roots={'TRY_INSERT': O64 + r'try_insert\('}, stubs=stubs, cut=['TRY_INSERT/while_2econd'], cfgs=(BASE, DEBUG),
         unwind=10, floor=20, timeout=900, memsafe=False, objbits=14,
         under_contract=['olc_db<uint64_t>::try_insert (%s)' % ('entry: empty tree, non-empty up to the loop head' if kind == 0 else 'one loop iteration at a leaf (exists / leaf split)' if kind == 1 else 'one loop iteration at an inner node (prefix split / callee add_or_choose_subtree by contract)')],
